@@ -227,6 +227,32 @@ def run(ctx):
         check_tree(ctx, out, spec, "rnd", rot)
         check_tree(ctx, out, spec, "rnd-lo", rot, levelorder=True)
         out.dist["random_tree"] += 1
+    # search - reorder - search on one tree object: sorting registers / unregisters nothing, so anything a search remembered about
+    # the order of the nodes is stale afterwards (the history below is an operation list the replay understands)
+    for k, spec in enumerate(CORPUS + [gen.random_spec(ctx.rng, ctx.rng.randrange(4, 10), NAMES, clone_rate=0.4) for _ in range(24 if ctx.thorough else 8)]):
+        import histories as H
+        import world
+
+        impl = world.ImplWorld(ctx.pool)
+        impl.new(False)
+        impl.new(False)
+        impl._bij = world.Bij()
+        log = []
+        try:
+            for op in H.build_ops(spec, 0, False):
+                impl.apply(dict(op))
+                log.append(H.clean(op))
+        except Exception:  # noqa
+            continue
+        sorts = [{"op": "w.sort", "t": 0, "n": [], "tree_api": True, "reverse": True},
+                 {"op": "w.sort", "t": 0, "n": [], "tree_api": False, "reverse": False, "deep": False},
+                 {"op": "w.sort", "t": 0, "n": [0], "tree_api": False, "reverse": True, "deep": True}]
+        check_tree(ctx, out, {"history": list(log), "tree": 0, "checked_every": 1, "from": len(log)}, "sort", rot, tree=impl.trees[0])
+        for op in sorts:
+            impl.apply(dict(op))
+            log.append(op)
+            check_tree(ctx, out, {"history": list(log), "tree": 0, "checked_every": 1, "from": len(log) - 1}, "sort", rot, tree=impl.trees[0])
+        out.dist["search_sort_search"] += 1
     # trees REACHED through mutation histories (re-keyed nodes, removed clones, explicit ids that are also the data of other
     # nodes): searches and index access must follow from the tree as it is now, not from what an index once held
     import histories as H
@@ -238,23 +264,25 @@ def run(ctx):
         impl.new(False)
         impl._bij = world.Bij()
         log = []
-        for i in range(ctx.rng.randrange(5, 30 if ctx.thorough else 18)):
+        every = 1 if h % 2 else 6      # every second history is searched after EVERY operation (short histories)
+        for i in range(ctx.rng.randrange(5, 30 if ctx.thorough else 18) if every > 1 else ctx.rng.randrange(4, 11)):
             ti = 0 if ctx.rng.random() < 0.85 else 1
             op = H.random_op(ctx.rng, impl, ti, labels=[0, 1, 6, 7, 12], malformed=0.03, did_rate=0.35, dids=("A", "B", "a1", 7, 0, ""),
-                             ops=["add", "add", "add", "addnode", "move", "remove", "remove", "setdata", "setdata", "setdata", "del"])
+                             ops=["add", "add", "add", "addnode", "addtree", "move", "move", "remove", "remove", "removechildren", "setdata", "setdata", "setdata",
+                                  "sort", "sort", "del", "shortcut"])
             impl.apply(op)
             log.append(H.clean(op))
-            if i % 6 == 5:
+            if i % every == every - 1:
                 # query - mutate - query: the same tree object is searched at several points of its history (an answer
                 # memoised by an earlier search must not survive a mutation)
                 try:
-                    check_tree(ctx, out, {"history": list(log), "tree": 0, "checked_every": 6}, "hist", rot, tree=impl.trees[0])
+                    check_tree(ctx, out, {"history": list(log), "tree": 0, "checked_every": every}, "hist", rot, tree=impl.trees[0])
                 except core.MachineryError:
                     raise
                 except Exception as e:  # noqa
                     out.fail(dict(q="history", spec={"history": list(log), "tree": 0}), f"searches raised {type(e).__name__}: {e} on a tree reached by {len(log)} operations")
         try:
-            check_tree(ctx, out, {"history": log, "tree": 0, "checked_every": 6}, "hist", rot, tree=impl.trees[0])
+            check_tree(ctx, out, {"history": log, "tree": 0, "checked_every": every}, "hist", rot, tree=impl.trees[0])
         except core.MachineryError:
             raise
         except Exception as e:  # noqa
@@ -296,7 +324,7 @@ def replay(ctx, rp):
         impl._bij = world.Bij()
         for i, op in enumerate(sp["history"]):
             impl.apply(dict(op))
-            if sp.get("checked_every") and i % sp["checked_every"] == sp["checked_every"] - 1 and i + 1 < len(sp["history"]):
+            if sp.get("checked_every") and i % sp["checked_every"] == sp["checked_every"] - 1 and i + 1 < len(sp["history"]) and i + 1 >= sp.get("from", 0):
                 check_tree(ctx, core.Outcome(), sp, "replay-warm", itertools.count(), tree=impl.trees[sp["tree"]])
         check_tree(ctx, out, sp, "replay", itertools.count(), tree=impl.trees[sp["tree"]])
     else:
